@@ -99,10 +99,45 @@ def run(chk):
         "Johnny Rotten'rE 2\nsay Johnny Rotten\n", "Tommy is 3\nThey'Re 5\nsay Tommy\n", "SAY 1\nsAy 2\nShOuT 3\nPUT 4 INTO x\nSaY X\n", "x is 1\nİS\n", "KNOCK x DOWN\n", "Ǆ is 5\nsay ǆ\nsay ǅ\n", "ΣΑΣ is 5\nsay σας\n",
     ]
     recs2 = execsuite.run(chk, [{"src": f} for f in fixed], "fixed", suite_name="EXEC-case-fixed")
-    record_exec(chk, recs + recs2, sig=lambda r: (hash(r["case"]["src"]) % 1000003,))
+    # declarations that clash: two mentions of one name in declaring positions (parameter lists, function after
+    # function, function after variable and the reverse, at top level and in a block); the second mention re-cased
+    # must clash (or not) exactly as the same spelling does
+    clash_t = [
+        "Adder takes {A} and {B}\ngive back {A}\n\nsay \"start\"\nsay Adder taking 1, 2\n",
+        "Adder takes Zed, {A}, {B}\ngive back {B}\n\nsay Adder taking 1, 2, 3\n",
+        "{A} takes Zed\ngive back 1\n\nsay \"one\"\n{B} takes Zed\ngive back 2\n\nsay {A} taking 0\n",
+        "{A} takes Zed\ngive back Zed\n\nsay \"one\"\n{B} is 5\nsay {B}\n",
+        "{A} is 5\nsay \"one\"\n{B} takes Zed\ngive back Zed\n\nsay {A}\nsay {B} taking 2\n",
+        "if true\n{A} takes Zed\ngive back 1\n\n{B} takes Zed\ngive back 2\n\nsay {A} taking 0\n\nsay \"end\"\n",
+        "{A} is 1\nWrap takes {B}\nput 7 into {A}\ngive back {B}\n\nsay Wrap taking 3\nsay {A}\n",
+        "listen to {A}\nlet {B} be with 1\nsay {A}\nrock {B} with 2\nsay {A} at 0\n",
+    ]
+    spell = [("x", "X"), ("foo", "FOO"), ("foo", "Foo"), ("Foo", "fOO"), ("the heart", "The Heart"), ("my heart", "MY HEART"), ("your été", "Your ÉTÉ"),
+             ("Tom Sawyer", "TOM SAWYER"), ("Tom Sawyer", "Tom SAWYER"), ("Élan Über", "ÉLAN ÜBER"), ("été", "ÉTÉ"), ("Doctor Feelgood", "DOCTOR FeelGood")]
+    ccases = []
+    for t in clash_t:
+        for a, b in spell:
+            for va, vb in ((a, a), (a, b), (b, a), (b, b)):
+                ccases.append({"src": t.replace("{A}", va).replace("{B}", vb), "stdin": "in\n", "meta": {"clash": (va, vb)}})
+    recs3 = execsuite.run(chk, ccases, "clash", suite_name="EXEC-clash")
+    cb = 0
+    for g in range(0, len(recs3), 4):
+        for prof in ("debug", "release"):
+            base_r = execsuite.split_out(recs3[g]["impl"].get(prof, ""))
+            for r in recs3[g + 1: g + 4]:
+                o = execsuite.split_out(r["impl"].get(prof, ""))
+                if (execsuite.strip_msg(o[0]), o[1]) != (execsuite.strip_msg(base_r[0]), base_r[1]):
+                    cb += 1
+                    if cb <= 3:
+                        chk.add_violation("re-casing one mention of a declared name changes whether / how the declarations clash",
+                                          {"oracle": "clash-invariance", "profile": prof, "src": r["case"]["src"], "original": recs3[g]["case"]["src"],
+                                           "impl": r["impl"].get(prof, ""), "impl_original": recs3[g]["impl"].get(prof, "")})
+    record_exec(chk, recs + recs2 + recs3, sig=lambda r: (hash(r["case"]["src"]) % 1000003,))
     chk.rule = (f"{n} generated programs x 3 consistent renamings of every variable, parameter and function name into fresh names of "
                 "random kinds (simple / common / proper, ASCII and accented letters) with per-mention case changes and keyword "
                 "re-casing; oracle: stdout bytes and outcome class equal to the original's (debug and release); fixed programs for "
-                "case folding of accented and special-casing letters, distinctness of spellings and of the three name kinds; and "
+                "case folding of accented and special-casing letters, distinctness of spellings and of the three name kinds; 8 templates "
+                "with two declaring mentions of one name (parameter lists, function/function, function/variable, in blocks) x 12 "
+                "spelling pairs x 4 case combinations, which must clash alike; and "
                 "model = implementation on all of them")
     conclude(chk, "C15", proved)
